@@ -99,6 +99,7 @@ class Msg(object):
 
 
 HELLO = b'hello'
+VERNUM = [0, 2, 11]        # highest version a class of code level 0 / 1 / 2 provides
 
 
 class Net(object):
@@ -233,20 +234,21 @@ def make_obj_class(versions=False):
             raise ValueError('boom')
 
         if versions is not False and versions is not None:
-            # versions = highest code version this node's class provides (0, 1 or 2)
+            # versions = code level of this node's class: level 0 has the implementation for version 0 only, level 1 adds
+            # the one for version 2, level 2 the one for version 11 (two digits: "newest" must not be decided by text order)
             @replicated(ver=0)
             def vop(self, cid):
                 return self._exec(cid, 0)
 
             if versions >= 1:
-                @replicated(ver=1)
-                def vop(self, cid):
-                    return self._exec(cid, 1)
-
-            if versions >= 2:
                 @replicated(ver=2)
                 def vop(self, cid):
                     return self._exec(cid, 2)
+
+            if versions >= 2:
+                @replicated(ver=11)
+                def vop(self, cid):
+                    return self._exec(cid, 11)
 
     return Obj
 
@@ -366,7 +368,7 @@ class Cluster(object):
             vers = False
             if self.cfg.get('versions'):
                 vers = int(self.cfg.get('codever', {}).get(nid, 2))
-            sn.maxver = vers if vers is not False else 0
+            sn.maxver = VERNUM[vers] if vers is not False else 0
             cls = obj_class(vers)
             mk = self.cfg.get('consumers')
             sn.obj = cls(Node(nid) if voter else None, [Node(m) for m in others], self._conf(nid), tr, sn,
